@@ -1,6 +1,9 @@
 package main
 
-import "bufio"
+import (
+	"bufio"
+	"fmt"
+)
 
 // runFamily dispatches the non-graph families; returns false if unknown.
 func runFamily(fam string, w *bufio.Writer, r *rng, id, size int, opt string) bool {
@@ -19,6 +22,15 @@ func runFamily(fam string, w *bufio.Writer, r *rng, id, size int, opt string) bo
 		genConv(w, r, id)
 	case "hist":
 		genHist(w, r, id)
+	case "race":
+		g, rounds := 4, 25
+		if size > 0 {
+			g = size
+		}
+		if opt != "" {
+			fmt.Sscanf(opt, "%d", &rounds)
+		}
+		genRace(w, r, id, g, rounds)
 	case "convseq":
 		genConvSeq(w, r, id)
 	case "call":
